@@ -51,7 +51,7 @@ impl RandomProp for RoundTrip {
         })
     }
     fn cases(env: &Env) -> u64 {
-        env.n(13 * 10_000, 13 * 300_000)
+        env.n(13 * 10_000, 13 * 60_000)
     }
 }
 
@@ -77,6 +77,33 @@ impl RandomProp for RoundTripLarge {
     }
     fn cases(env: &Env) -> u64 {
         env.n(13 * 20, 13 * 800)
+    }
+}
+
+pub struct RoundTripBufio;
+
+impl Prop for RoundTripBufio {
+    type Case = FileCase;
+    fn name() -> &'static str {
+        "roundtrip-bufio"
+    }
+    fn rule() -> &'static str {
+        "proptest: 2500-7000 small shapes of varying sizes written with ShapeWriter::from_path (BufWriter<File>) and read back by path \
+         (read_shapes, read_shapes_as, ShapeReader::from_path iteration and random access, with and without .shx) as well as in memory: \
+         files of 70-400 KB, so record headers / bodies / index entries straddle the 8 KiB buffer edges at every alignment; non-trivial: every case"
+    }
+    fn check(c: &FileCase, ctx: &mut Ctx) -> Result<(), Fail> {
+        ctx.nontrivial();
+        RoundTrip::check(c, ctx)
+    }
+}
+
+impl RandomProp for RoundTripBufio {
+    fn strategy(_env: &Env) -> BoxedStrategy<FileCase> {
+        bufio_file_case()
+    }
+    fn cases(env: &Env) -> u64 {
+        env.n(16, 160)
     }
 }
 
